@@ -22,6 +22,7 @@ PUNCT_DOCS = ["Train, validation and tests dataset splits.", "Alpha, beta and ga
               "Maps alpha -> beta weights", "Uses alpha = beta weights", "The 'alpha' weight kept", 'The "beta" weight kept', "Kept between runs,",
               "A value, kept; see (alpha) - beta: gamma", "Ratio of a/b, then c", "Kept as-is, e.g. between runs", "Either alpha, or beta",
               "One of: alpha, beta", "Kept, then dropped", "(kept) between runs", "Kept; dropped"]
+LIT_ODD = ["us-east-1", "a.b", "x y", "v1.2", "en-GB", "1st"]
 INTS = [0, 0, 1, 5, -3, 42, 100, 2]
 FLOATS = [0.0, 0.0, 0.5, 1.0, -2.5, 0.001, 3.14]
 STRS = ["", "", "mnist", "foo", "bar baz", "a_b", "~/data", "x", "None0"]
@@ -53,7 +54,8 @@ def gen_typ(r, kinds=None):
         t = r.choice(SCALARS)
         return "List[%s]" % t, k, []
     if k == "literal":
-        ms = r.sample(MEMBERS, r.randint(2, 3))
+        # members that are not identifier-like (hyphens, dots, blanks) and enumerations of ONE member: the default must survive as a string, not as code
+        ms = r.sample(MEMBERS + (LIT_ODD if r.random() < 0.35 else []), r.choice([1, 2, 2, 3]))
         return "Literal[%s]" % ", ".join("'%s'" % m for m in ms), k, ["lit:" + ms[0]]
     return r.choice(DOTTED), "dotted", ["code"]
 
